@@ -174,6 +174,9 @@ def sweep(rng, h):
     base = generate(rng, 'thorough')
     base['plan'] = []
     base['ops'] = base['ops'][:1]
+    if base['ops'][0]['op'] != 'run_obj':
+        # (the sampled scenario runs the whole module through the runner: sweep its first doctest)
+        base['ops'] = [{'op': 'run_obj', 'dt': gen.doctest_ids(base['world'])[0], 'verbose': 0, 'on_error': 'return'}]
     dt = base['ops'][0]['dt']
     modname = base['world']['modules'][0]['name']
     spec = dict((d, x) for d, x, m in W.iter_doctests(base['world']))[dt]
